@@ -27,6 +27,7 @@ import socket
 from typing import Any
 
 from exabgp.bgp.message.open.capability.capabilities import Capabilities
+from exabgp.bgp.message.open.capability.capability import Capability
 from exabgp.bgp.message.open.routerid import RouterID
 from exabgp.bgp.message.update.attribute.aspath import SEQUENCE, SET, AS2Path
 from exabgp.bgp.message.open.asn import ASN
@@ -109,6 +110,7 @@ def sess_words(n: Any, neg: Any) -> str:
         [
             str(int(n.session.local_as)),
             str(int(n.session.peer_as)),
+            str(int(bool(neg.sent_open.capabilities.announced(Capability.CODE.FOUR_BYTES_ASN)))),
             str(int(bool(neg.asn4))),
             fams_word(ap),
             fams_word(xnh),
@@ -123,7 +125,7 @@ def sess_words(n: Any, neg: Any) -> str:
 def wire_params(words: str) -> str:
     """PARAMS of drv_wire for the receiver of a session described by SESS words."""
     w = words.split(' ')
-    return f'{w[2]} {w[3]} {w[4]} {w[5]}'
+    return f'{w[3]} {w[4]} {w[5]} {w[6]}'
 
 
 # ---------------------------------------------------------------------------------------------
@@ -328,7 +330,7 @@ def expected(req: dict, shape: dict, words: str) -> dict:
     configured: {'fam', 'nh' (hex or None = no address of that family), 'nlri', 'attrs': {code: value}}.
     Set-valued attributes are sorted lists of values; NEXT_HOP is not listed (it is checked with the route)."""
     afi, safi = req_afi(req), req_safi(req)
-    ap = f'{afi}.{safi}' in words.split(' ')[3].split('+')  # ADD-PATH send as the two OPENs negotiated it for this family
+    ap = f'{afi}.{safi}' in words.split(' ')[4].split('+')  # ADD-PATH send as the two OPENs negotiated it for this family
     pid = (req['pathinfo'] if req.get('pathinfo') is not None else 0) if ap else None
     nlri = ':'.join(
         [
@@ -404,8 +406,11 @@ def parse_report(line: str) -> dict | None:
 def judge(req: dict, shape: dict, words: str, outcome: tuple, report_line: str | None) -> tuple[str, str] | None:
     """The property's oracle on what the implementation did. None = holds; else (what, detail)."""
     exp = expected(req, shape, words)
+    if outcome[0] == 'raised' and outcome[1] == 'error':
+        # struct.error out of the packer for a route the grammar accepted: the route cannot be announced
+        return ('raises:error', 'struct.error leaves UpdateCollection.messages(): the route is never announced')
     if outcome[0] != 'sent':
-        # nothing on the wire: the property speaks about the bytes that are emitted
+        # nothing on the wire (refusal with a diagnostic, or too large): the property speaks about the bytes that are emitted
         return None
     if report_line is None:
         return None
